@@ -46,6 +46,8 @@ pub struct ResponseSpec {
     /// close the connection without answering
     pub reset: bool,
     pub delay_ms: u64,
+    /// write the last `tail_split` bytes of the response separately, after `pause_us`
+    pub tail_split: usize,
 }
 
 impl ResponseSpec {
@@ -60,6 +62,7 @@ impl ResponseSpec {
             pause_us: 0,
             reset: false,
             delay_ms: 0,
+            tail_split: 0,
         }
     }
     pub fn status(status: u16, body: &[u8]) -> ResponseSpec {
@@ -221,9 +224,11 @@ fn serve_conn(
     let mut tmp = vec![0u8; 256 * 1024];
     let mut seq = 0u32;
     let mut read_more = |s: &mut TcpStream, buf: &mut Vec<u8>| -> bool {
+        rawhttp::quickack(s);
         match s.read(&mut tmp) {
             Ok(0) => false,
             Ok(n) => {
+                rawhttp::quickack(s);
                 bytes.fetch_add(n as u64, Ordering::SeqCst);
                 *plb.lock().unwrap().entry(name.clone()).or_insert(0) += n as u64;
                 buf.extend_from_slice(&tmp[..n]);
@@ -300,8 +305,16 @@ fn serve_conn(
             return;
         }
         let wire = spec.wire(&rec.method);
-        if rawhttp::write_pieces(&mut s, &wire, &spec.pieces, Duration::from_micros(spec.pause_us)).is_err() {
+        let split = spec.tail_split.min(wire.len());
+        if rawhttp::write_pieces(&mut s, &wire[..wire.len() - split], &spec.pieces, Duration::from_micros(spec.pause_us)).is_err() {
             return;
+        }
+        if split > 0 {
+            let _ = s.flush();
+            std::thread::sleep(Duration::from_micros(spec.pause_us.max(100)));
+            if s.write_all(&wire[wire.len() - split..]).is_err() {
+                return;
+            }
         }
         let _ = s.flush();
         if matches!(spec.framing, RespFraming::Close) {
